@@ -122,6 +122,37 @@ def build_mlar():
     return exe
 
 
+def build_cdriver():
+    """libmla.a from /repo/bindings/C (no hooks, production constants) + the gcc-compiled C client of harness/cdriver."""
+    if "cdriver" in _mlar:
+        return _mlar["cdriver"]
+    env = dict(os.environ)
+    for k in list(env):
+        if k.startswith("MLA_VERIF_"):
+            del env[k]
+    env["CARGO_NET_OFFLINE"] = "true"
+    env.pop("RUSTFLAGS", None)
+    tdir = os.path.join(HARNESS, "target", "cabi")
+    t0 = time.time()
+    p = subprocess.run(["cargo", "build", "-p", "mla-bindings-c", "--offline", "--target-dir", tdir], cwd=REPO, env=env,
+                       stdout=subprocess.PIPE, stderr=subprocess.STDOUT, text=True)
+    if p.returncode != 0:
+        sys.stdout.write(p.stdout[-6000:])
+        raise ToolError("cargo build -p mla-bindings-c failed")
+    exe = os.path.join(tdir, "driver")
+    g = subprocess.run(["gcc", "-Wall", "-Wextra", "-O1", "-I" + os.path.join(REPO, "bindings", "C"),
+                        os.path.join(HARNESS, "cdriver", "driver.c"), os.path.join(tdir, "debug", "libmla.a"),
+                        "-lpthread", "-ldl", "-lm", "-o", exe], stdout=subprocess.PIPE, stderr=subprocess.STDOUT, text=True)
+    if g.returncode != 0:
+        # the header no longer matches the C client's use of the API: for C20 that is an observation, reported by the caller
+        _mlar["cdriver_error"] = g.stdout[-3000:]
+        _mlar["cdriver"] = None
+        return None
+    log(f"[build] libmla.a + C driver ready in {time.time() - t0:.1f}s")
+    _mlar["cdriver"] = exe
+    return exe
+
+
 def mbt(profile, engine, *args, timeout=3600, env_extra=None, check=True):
     exe = build(profile)
     env = dict(os.environ)
